@@ -84,6 +84,30 @@ async fn limit_counts_only_frames_that_were_delivered() {
 }
 
 #[tokio::test(flavor = "multi_thread", worker_threads = 4)]
+async fn limit_counts_live_frames_not_expired_ones() {
+    // C11/C09: expired frames that are still stored (nobody read them yet) are withheld and do not use up the limit
+    let d = tempfile::tempdir().unwrap();
+    let store = Store::new(d.path().to_path_buf());
+    for _ in 0..2 { store.append(Frame::builder("t", ZERO_CONTEXT).ttl(TTL::Time(Duration::from_millis(30))).build()).unwrap(); }
+    let p: Vec<Scru128Id> = (0..3).map(|_| store.append(Frame::builder("t", ZERO_CONTEXT).build()).unwrap().id).collect();
+    tokio::time::sleep(Duration::from_millis(120)).await;
+    let mut rx = store.read(ReadOptions::builder().limit(2).build()).await;
+    let (got, _) = recv_until_quiet(&mut rx, Duration::from_millis(600)).await;
+    assert_eq!(data(&got), p[..2].to_vec(), "C11: read(limit=2) over two expired and three live frames delivers the first two LIVE frames");
+    // (that read queued the removal of the expired frames; a second store, same shape, for the following read)
+    let d2 = tempfile::tempdir().unwrap();
+    let store2 = Store::new(d2.path().to_path_buf());
+    store2.append(Frame::builder("t", ZERO_CONTEXT).ttl(TTL::Time(Duration::from_millis(30))).build()).unwrap();
+    let q: Vec<Scru128Id> = (0..3).map(|_| store2.append(Frame::builder("t", ZERO_CONTEXT).build()).unwrap().id).collect();
+    tokio::time::sleep(Duration::from_millis(120)).await;
+    let mut rx = store2.read(ReadOptions::builder().follow(FollowOption::On).limit(3).build()).await;
+    tokio::time::sleep(Duration::from_millis(150)).await;
+    store2.append(Frame::builder("t", ZERO_CONTEXT).build()).unwrap();
+    let (got, _) = recv_until_quiet(&mut rx, Duration::from_millis(800)).await;
+    assert_eq!(data(&got), q, "C11: read(follow, limit=3) delivers the three stored live frames, not a later one in place of the third");
+}
+
+#[tokio::test(flavor = "multi_thread", worker_threads = 4)]
 async fn tail_skips_history_and_contexts_are_isolated() {
     let d = tempfile::tempdir().unwrap();
     let store = Store::new(d.path().to_path_buf());
